@@ -144,7 +144,7 @@ SUBCHECKS = [
 
 TECHNIQUE = "property-based differential testing (Hypothesis) against an independent integer-arithmetic reference coder"
 LEVEL_TEXT = ("Generated-input search with a reference-model oracle written from the published scheme on Python "
-              "ints (no string arithmetic, no numpy, no dsw import): 8,000 (quick) / 70,000 (thorough) cases, both "
+              "ints (no string arithmetic, no numpy, no dsw import): 8,000 (quick) / 70,000 (thorough) cases plus long (1,100..3,800-bit) and, in the thorough tier, 14,300-bit messages, both "
               "directions (encode equality; decode of arbitrary walks at several widths), all out-degrees, tables, "
               "both modes. Catches format changes applied consistently to encoder and decoder, which the round trip "
               "of C01 cannot see. Exploration only.")
